@@ -85,8 +85,9 @@ def want_vars(p):
     return w
 
 
-PIN_SAMPLES = 6
+PIN_SAMPLES = 4
 PIN_EARLY = 2
+PIN_MS = 800
 
 
 def _pinned_search(p, o, cons, max_k, skip=0):
@@ -107,7 +108,7 @@ def _pinned_search(p, o, cons, max_k, skip=0):
             pc_ = solve.pin(pins + list(cons))
         except Exception:
             pc_ = pins + list(cons)
-        stp, envp, _ = solve.solve_inproc(pc_, 400, want_vars(p))
+        stp, envp, _ = solve.solve_inproc(pc_, PIN_MS, want_vars(p))
         if stp == 'sat':
             return 'sat', _envjson(fix_angles(envp, angle_info(p))), time.time() - t0, tried
     return 'unknown', None, time.time() - t0, tried
@@ -252,7 +253,7 @@ def _sym_worker(pid, hname, tier, conn, quick_ms, roots=None):
                         result['records'].append(dict(path=pi, name=c['name'], kind='check', status='unsat', by='simplifier',
                                                       secs=0.0))
                     else:
-                        obls.append(dict(name=c['name'], kind='check', bad=c['bad'], snap=c['snap'], mask=c.get('mask'), exact=c.get('exact')))
+                        obls.append(dict(name=c['name'], kind='check', bad=c['bad'], snap=c['snap'], mask=c.get('mask'), exact=c.get('exact'), cands=c.get('cands')))
             for ev in p.events:
                 result['events'].append(ev)
             # reachability witness
@@ -367,119 +368,10 @@ def _sym_worker(pid, hname, tier, conn, quick_ms, roots=None):
                         rec.update(status='sat', by='z3-5.1-inproc (inputs pinned to a shadow sample)', secs=round(dt, 3),
                                    env=envp, alt_envs=[])
                     rec['pinned_tried'] = tried
-                if st == 'unknown':
-                    rec['smt2'] = solve.to_smt2(cons)
-                    rec['vars'] = list(want_vars(p))
-                    rec['angles'] = angle_info(p)
-                result['records'].append(rec)
-            # fidelity witness: a generic model of this path and the value of every observed output term under it
-            if hh is not None and hh.outs and len(result['fidelity']) < 4 and outcome == 'ok':
-                fw = _fidelity_witness(p, hh, rng)
-                if fw is not None:
-                    fw['path'] = pi
-                    result['fidelity'].append(fw)
-            for o in obls:
-                base = _constraints(p, o['snap'])
-                if o['kind'] == 'exception' or z3.is_true(z3.simplify(o['bad'])):
-                    # "this path is reachable": the inputs only have to satisfy the domain and the branch conditions; the
-                    # definitions of auxiliary symbols are dropped (a model is replayed on the real code anyway)
-                    d_, c_, f_, a_ = o['snap']
-                    light = p.domain[:d_] + p.pc[:c_]
-                    # first with the definitions (a model that respects sqrt / trig symbols replays), then without
-                    stf, envf, dtf = solve.solve_inproc(base + [o['bad']], tmo, want_vars(p))
-                    st, env, dt = solve.solve_inproc(light, tmo, want_vars(p))
-                    if stf == 'sat':
-                        rec = dict(path=pi, name=o['name'], kind=o['kind'], status='sat', by='z3-5.1-inproc',
-                                   secs=round(dtf + dt, 3), env=_envjson(fix_angles(envf, angle_info(p))))
-                        if st == 'sat':
-                            rec['alt_envs'] = [_envjson(fix_angles(env, angle_info(p)))]
-                        result['records'].append(rec)
-                        continue
-                    if st == 'sat':
-                        result['records'].append(dict(path=pi, name=o['name'], kind=o['kind'], status='sat', by='z3-5.1-inproc',
-                                                      secs=round(dt, 3), env=_envjson(fix_angles(env, angle_info(p)))))
-                        continue
-                cons = base + [o['bad']]
-                if o['kind'] == 'check':
-                    tc = time.time()
-                    ok, info = algcert.try_certify(base, o['bad'], tag=('path', pi), budget_s=min(h.algcert_s, 3.0))
-                    if not ok and h.algcert_s > 3.0:
-                        # before the long certificate search: is there a counterexample at one of the shadow samples?
-                        if o.get('mask') is not None and o.get('exact'):
-                            stp, envp, dtp, tried = _pinned_search(p, o, cons, PIN_EARLY)
-                            if stp == 'sat':
-                                result['records'].append(dict(path=pi, name=o['name'], kind=o['kind'], status='sat', env=envp,
-                                                              by='z3-5.1-inproc (inputs pinned to a shadow sample)',
-                                                              secs=round(time.time() - tc, 3), alt_envs=[]))
-                                continue
-                        ok, info = algcert.try_certify(base, o['bad'], tag=('path', pi), budget_s=h.algcert_s)
-                    if ok:
-                        result['records'].append(dict(path=pi, name=o['name'], kind=o['kind'], status='unsat',
-                                                      by='z3-5.1 (algebraic certificate)', secs=round(time.time() - tc, 3)))
-                        continue
-                tq = time.time()
-                if o['kind'] != 'check' or algcert.split_equality(o['bad']) is None:
-                    if sqabs.try_refute(cons):
-                        result['records'].append(dict(path=pi, name=o['name'], kind=o['kind'], status='unsat',
-                                                      by='z3-5.1 (square abstraction)', secs=round(time.time() - tq, 3)))
-                        continue
-                try:
-                    cons = solve.pin(cons)
-                except Exception:
-                    pass
-                st, env, dt = solve.solve_inproc(cons, tmo, want_vars(p))
-                by = 'z3-5.1-inproc'
-                rec = dict(path=pi, name=o['name'], kind=o['kind'], status=st, by=by, secs=round(dt, 3))
-                if st == 'sat':
-                    rec['env'] = _envjson(fix_angles(env, angle_info(p)))
-                    # alternative models away from the special values solvers like (0, +-1, +-1/2): under-constrained
-                    # symbols (opaque angles, contracts) make the first model a poor replay candidate
-                    alts = []
-                    extra = []
-                    for n, v in p.inputs.items():
-                        if v.sort() == z3.RealSort():
-                            extra += [v != 0, v != 1, v != -1, 2 * v != 1, 2 * v != -1]
-                            if n in env:
-                                extra.append(v != z3.RealVal(str(env[n])))
-                    st2, env2, _ = solve.solve_inproc(cons + extra, tmo, want_vars(p))
-                    if st2 == 'sat':
-                        alts.append(_envjson(fix_angles(env2, angle_info(p))))
-                    ab = algcert.split_equality(o['bad']) if o['kind'] == 'check' else None
-                    if ab is not None:
-                        # a counterexample with a margin well above the replay tolerance
-                        x_, y_ = ab
-                        tolr = z3.RealVal(str(getattr(h, 'conc_tol', 1e-6) * 100))
-                        ay_ = z3.If(y_ >= 0, y_, -y_)
-                        robust = z3.Or(x_ - y_ > tolr * (1 + ay_), y_ - x_ > tolr * (1 + ay_))
-                        st3, env3, _ = solve.solve_inproc(base + [robust], max(tmo, 2000), want_vars(p))
-                        if st3 == 'sat':
-                            alts.insert(0, _envjson(fix_angles(env3, angle_info(p))))
-                    rec['alt_envs'] = alts
-                if st == 'unknown' and o.get('mask') is not None and o.get('exact'):
-                    # model search guided by the shadow samples: the inputs are pinned to the exact rational value of a
-                    # sample that followed this path; the solver evaluates the remaining (auxiliary) symbols
-                    tried = 0
-                    for k in _np.nonzero(o['mask'])[0][:PIN_SAMPLES]:
-                        pins = []
-                        for n, v in p.inputs.items():
-                            ex = o['exact'].get(n)
-                            if ex is not None and ex[k] is not None and v.sort() == z3.RealSort():
-                                pins.append(v == z3.RealVal(str(ex[k])))
-                        if not pins:
-                            break
-                        tried += 1
-                        try:
-                            pc_ = solve.pin(pins + list(cons))
-                        except Exception:
-                            pc_ = pins + list(cons)
-                        stp, envp, dtp = solve.solve_inproc(pc_, 400, want_vars(p))
-                        dt += dtp
-                        if stp == 'sat':
-                            st = 'sat'
-                            rec.update(status='sat', by='z3-5.1-inproc (inputs pinned to a shadow sample)', secs=round(dt, 3),
-                                       env=_envjson(fix_angles(envp, angle_info(p))), alt_envs=[])
-                            break
-                    rec['pinned_tried'] = tried
+                if st == 'unknown' and o.get('cands'):
+                    # the solvers gave up, but the proposition fails by a wide margin at a shadow sample that followed this
+                    # path: candidate counterexamples for the replay on the real code (which alone decides a violation)
+                    rec['cand_envs'] = [_envjson(c_) for c_ in o['cands']]
                 if st == 'unknown':
                     rec['smt2'] = solve.to_smt2(cons)
                     rec['vars'] = list(want_vars(p))
